@@ -344,6 +344,9 @@ fn run_random(ctx: &mut Ctx, rng: &mut Rng, _index: u64) {
         p => p,
     };
     let c = Case { status_line, framing, payload, sizes, styles, garbage, seg, head_bytewise: None, plan, extra_reads: rng.range(1, 3) };
+    if std::env::var_os("VERIF_DEBUG").is_some() {
+        eprintln!("C01 random: framing={} payload={} chunks={} seg={} plan={} wire={}", c.framing.name(), c.payload.len(), c.sizes.len(), c.seg.describe().chars().take(80).collect::<String>(), c.plan.describe(), b.wire.len());
+    }
     run_case(ctx, &c);
 }
 
